@@ -246,6 +246,10 @@ def _gen_case(rng, tier, direction=None, feats=None):
         case['bound'] = case['clock'][0] - case.get('ctorLead', 0)
     if rng.random() < 0.3:
         case['objAttrs'] = True
+    if rng.random() < 0.25:
+        # progress is booked late: the plan is copied once (as a look at it, a what-if, an earlier calc would) with other figures for the
+        # work done, and only then every task gets the `spent` the case describes
+        case['lateSpent'] = True
     if rng.random() < 0.3:
         # the plan is looked at before it is scheduled: its span, every task's relatives (read-only accessors)
         case['peek'] = True
@@ -344,7 +348,10 @@ def build(case, hold_last_link=False, apply_move=True):
         fl = case.get('floats', False)
         if t['est'] is not None:
             kw['estimate'] = py_num(t['est'], fl)
-        if t['spent'] is not None:
+        if case.get('lateSpent'):
+            if t['spent'] is None:
+                kw['spent'] = 3
+        elif t['spent'] is not None:
             kw['spent'] = py_num(t['spent'], fl)
         if t['ms']:
             kw['milestone'] = True
@@ -416,6 +423,12 @@ def build(case, hold_last_link=False, apply_move=True):
             build.refused = False
         except RuntimeError:
             pass
+    if case.get('lateSpent'):
+        w.clone()
+        for o in objs:
+            o.clone()
+        for o, t in zip(objs, case['tasks']):
+            o.spent = None if t['spent'] is None else py_num(t['spent'], case.get('floats', False))
     build.move = None
     build.moved = True
     if case.get('lateMove'):
